@@ -727,6 +727,12 @@ func (field *fieldDataPrecisionScale) ReadFrom(ch BytesChannel) (int, error) {
 		return n, fmt.Errorf("%T is neither of type DecNFieldFmt nor NumNFieldFmt", field.value)
 	}
 
+	// Precision and scale come from the wire - validate them the same way
+	// the decimal constructors do.
+	if _, err := asetypes.NewDecimal(dec.Precision, dec.Scale); err != nil {
+		return n, fmt.Errorf("invalid precision %d and scale %d: %w", dec.Precision, dec.Scale, err)
+	}
+
 	return n, nil
 }
 
